@@ -22,6 +22,7 @@ type PropConfig struct {
 	Exclude   []string `json:"exclude"`  // pkgpath::func excluded from ::* expansion
 	VerifyFiles []string `json:"verify_files"` // repo-relative files: every function declared in them
 	NilCheck  []string `json:"nilcheck"` // functions (keys) whose nil dereferences are also obligations
+	NilCheckFiles []string `json:"nilcheck_files"` // repo-relative files: nil dereferences and calls on nil interfaces are obligations in every function declared there
 	MinObligations int `json:"min_obligations"`
 	Assumptions []string `json:"assumptions"`
 	NotReached  []string `json:"not_reached"`
@@ -208,7 +209,16 @@ func runCheck(repo, verif, prop, tier string, seed int) int {
 			mu.Lock()
 			// VC generation shares the engine's caches: serialise generation, parallelise solving
 			mu.Unlock()
-			results[i] = eng.verifyLocked(&mu, t.fn, scfg, nilc[t.key])
+			nc := nilc[t.key]
+			if !nc && t.fn.Parent() == nil { // closures: free variables cannot be constrained, not swept
+				pos := eng.fset.Position(t.fn.Pos())
+				for _, nf := range pc.NilCheckFiles {
+					if strings.HasSuffix(pos.Filename, "/"+nf) {
+						nc = true
+					}
+				}
+			}
+			results[i] = eng.verifyLocked(&mu, t.fn, scfg, nc)
 		}(i, t)
 	}
 	wg.Wait()
